@@ -314,7 +314,12 @@ func (client *client) writeLoop() {
 			switch p := packet.(type) {
 			case *packets.Publish:
 				if client.version == packets.Version5 {
-					if client.opts.ClientTopicAliasMax > 0 {
+					// The size test against the client's Maximum Packet Size was made on the
+					// message without a Topic Alias. A new alias is sent together with the
+					// topic name, which makes the packet longer (3 bytes for the property and
+					// possibly one more byte in each of the two length fields): only consult
+					// the alias manager when that still fits.
+					if client.opts.ClientTopicAliasMax > 0 && client.roomForTopicAlias(p) {
 						// use alias if exist
 						if alias, ok := client.topicAliasManager.Check(p); ok {
 							p.TopicName = []byte{}
@@ -352,6 +357,18 @@ func (client *client) writeLoop() {
 			}
 		}
 	}
+}
+
+// roomForTopicAlias reports whether p still fits the client's Maximum Packet Size when
+// a Topic Alias property is added to it.
+func (client *client) roomForTopicAlias(p *packets.Publish) bool {
+	const aliasOverhead = 5
+	max := client.opts.ClientMaxPacketSize
+	if max == 0 {
+		return true
+	}
+	total := gmqtt.MessageFromPublish(p).TotalBytes(packets.Version5)
+	return total <= max && max-total >= aliasOverhead
 }
 
 func (client *client) writePacket(packet packets.Packet) error {
